@@ -12,11 +12,15 @@ def obs_all(regs):
 def run(w):
     regs = Registers()
     out = []
-    for op in w:
+    for k, op in enumerate(w):
         p = op.split(":")
         if p[0] == "s":
             r = RegisterName[p[1]]
-            regs.set(r, int(p[2]))
+            if p[1] in ("FC", "FZ") and k % 2:
+                # the other public write path of the flags (used by the emulator's flag callbacks): by flag name
+                regs.set_flag(p[1][1], int(p[2]))
+            else:
+                regs.set(r, int(p[2]))
             out.append(str(regs.get(r)))
         elif p[0] == "g":
             out.append(str(regs.get(RegisterName[p[1]])))
